@@ -120,7 +120,7 @@ fn main() {
 		// (a) every sequence up to a depth over the exact-arithmetic alphabet, small lengths
 		let ns: Vec<usize> = if thorough { (min..=6).collect() } else { (min..=4).collect() };
 		for n in ns {
-			let depth = if thorough { (2 * n + 4).min(10) } else { (2 * n + 3).min(8) } as u32;
+			let depth = if thorough { (2 * n + 4).min(9) } else { (2 * n + 3).min(8) } as u32;
 			let sys = MSys {
 				name: format!("{name}/depth/n={n}"),
 				spec: spec(name),
@@ -175,8 +175,25 @@ fn main() {
 			check_peek: true,
 				extra: None,
 		});
-		let k = if thorough { 2 } else { 1 };
-		h.go(&sys, &Limits::deviation(k, 2 * maxn as u32 + 4).wall_secs(if thorough { 600 } else { 30 }).states(200_000_000), true);
+		h.go(&sys, &Limits::deviation(1, 2 * maxn as u32 + 4).wall_secs(if thorough { 900 } else { 30 }).states(400_000_000), true);
+		if thorough {
+			let ns2: Vec<usize> = (min..=maxn).filter(|n| *n <= 48 || [63, 64, 127, 128, 253, 254].contains(n)).collect();
+			let sys2 = Flat(MSys {
+				name: format!("{name}/deviation-2/n<=48+boundary"),
+				spec: spec(name),
+				params: ns2.iter().map(|n| Params::N(*n as PeriodType)).collect(),
+				v0s: vals(&[1.0, -3.0]),
+				alphabet: vals(&arith[..4]),
+				mk_ref: mk_ref(name),
+				shape: Shape::Flat,
+				span: n_of,
+				keyed: false,
+				positions: Some(boundary_positions),
+				check_peek: true,
+				extra: None,
+			});
+			h.go(&sys2, &Limits::deviation(2, 2 * maxn as u32 + 4).wall_secs(900).states(400_000_000), true);
+		}
 	}
 	// wide period types (C20): window lengths beyond 255
 	if (PeriodType::MAX as u64) > 255 {
@@ -309,7 +326,7 @@ fn main() {
 			check_peek: true,
 				extra: None,
 		});
-		h.go(&sys, &Limits::deviation(if thorough { 2 } else { 1 }, 2 * maxn as u32 + 4).wall_secs(300).states(200_000_000), true);
+		h.go(&sys, &Limits::deviation(1, 2 * maxn as u32 + 4).wall_secs(600).states(400_000_000), true);
 	}
 	// ADI windowed
 	{
@@ -344,7 +361,7 @@ fn main() {
 			check_peek: true,
 				extra: None,
 		});
-		h.go(&sys, &Limits::deviation(if thorough { 2 } else { 1 }, 2 * maxn as u32 + 4).wall_secs(300).states(200_000_000), true);
+		h.go(&sys, &Limits::deviation(1, 2 * maxn as u32 + 4).wall_secs(600).states(400_000_000), true);
 	}
 	h.run.assume("reference definitions in /verif/mc/refmodel are written from the doc comments; radius per DESIGN.md §4.2");
 	h.run.note("allowance", serde_json::json!("window functional: 16*eps*(t+n+8)*sum|w|*M_t; compositions by interval propagation"));
